@@ -27,6 +27,13 @@ var Guards = []Guard{
 	{"gd.okVar", "ok := rt.Validate1($x)\nif ok {\n\trt.Sink1($x)\n}"},
 	{"gd.okUnused", "ok := rt.Validate1($x)\n_ = ok\nrt.Sink1($x)"},
 	{"gd.okNegated", "ok := rt.Validate1($x)\nif !ok {\n\trt.Sink1($x)\n}"},
+	// the negation of the validator result exists as a VALUE (stored), not as a swapped branch
+	{"gd.notStored", "inv := !rt.Validate1($x)\nif inv {\n\trt.Sink1($x)\n}"},
+	{"gd.notStoredElse", "inv := !rt.Validate1($x)\nif inv {\n\trt.Sink3(\"c\")\n} else {\n\trt.Sink1($x)\n}"},
+	{"gd.notStoredReturn", "inv := !rt.Validate1($x)\nif inv {\n\treturn\n}\nrt.Sink1($x)"},
+	{"gd.errFailedStored", "e := rt.ValidateE1($x)\nfailed := !(e == nil)\nif failed {\n\trt.Sink1($x)\n}"},
+	{"gd.errOkStored", "e := rt.ValidateE1($x)\nok := e == nil\nif !ok {\n\trt.Sink1($x)\n}"},
+	{"gd.doubleNeg", "inv := !rt.Validate1($x)\nok := !inv\nif ok {\n\trt.Sink3(\"c\")\n} else {\n\trt.Sink1($x)\n}"},
 	{"gd.andCond", "if rt.Cond() && rt.Validate1($x) {\n\trt.Sink1($x)\n}"},
 	{"gd.orCond", "if rt.Cond() || rt.Validate1($x) {\n\trt.Sink1($x)\n}"},
 	{"gd.condAndNot", "if rt.Cond() && !rt.Validate1($x) {\n\treturn\n}\nrt.Sink1($x)"},
